@@ -46,7 +46,11 @@ def _round_snapshot(d):
             tuple((n, _rnd(x), _rnd(y)) for n, x, y in anchors),
         )
     if d[0] == "kerning":
-        return ("kerning", tuple((k, _rnd(v)) for k, v in d[1]), d[2])
+        # MathKerning.round() does NOT go through fontMath's configurable integer rounding (which ufo2ft sets to otRound): it uses fontMath's
+        # round2 = round half AWAY FROM ZERO (-15.5 -> -16, where otRound gives -15).  Library behaviour, described as it is (notes/C19.md, F-C19-3).
+        from fontMath.mathFunctions import round2
+
+        return ("kerning", tuple((k, int(round2(int(round2(v / 1.0)) * 1.0))) for k, v in d[1]), d[2])
     raise NotImplementedError("rounding of this snapshot kind")
 
 
